@@ -585,6 +585,6 @@ def _closure(repo: Repo, res: RuleResult):
         reset = wl is not None and any(isinstance(a, ast.Assign) and norm(a.targets[0]) == flag and norm(a.value) == 'False' for a in wl.body)
         ok = lp is not None and wl is not None and arg_ok and sub_ok and sets_flag and reset and norm(lp.iter) == cs.positional_names()[0]
         why = 'origin added=%s, when all symbols nullable=%s, repeated until no change=%s' % (arg_ok, sub_ok, sets_flag and reset)
-    res.ob(site, 'e9: NULLABLE grows by the origin of every rule whose expansion is all nullable, until nothing changes', ok, props=['C01', 'C02'])
+    res.ob(site, 'e9: NULLABLE grows by the origin of every rule whose expansion is all nullable, until nothing changes', ok, props=['C01', 'C02', 'C09'])
     if not ok:
-        res.finding(cs, ups[0] if ups else cs.node, 'the NULLABLE computation changed (%s)' % why, construct='e9:nullable', props=['C01', 'C02'])
+        res.finding(cs, ups[0] if ups else cs.node, 'the NULLABLE computation changed (%s)' % why, construct='e9:nullable', props=['C01', 'C02', 'C09'])
